@@ -145,6 +145,7 @@ class ScriptedSim(mosaik_api_v3.Simulator):
         self._rec(op="call", kind="setup_done", sid=self.sid)
         self._fault("setup_done")
         yield from self._latency("setup_done")
+        self._fault_late("setup_done")
         self._rec(op="ret", kind="setup_done", sid=self.sid)
         return None
 
@@ -211,6 +212,7 @@ class ScriptedSim(mosaik_api_v3.Simulator):
             import asyncio
             yield asyncio.sleep(dur)
         yield from self._latency("step")
+        self._fault_late("step")
 
         # --- next step -------------------------------------------------------
         nxt: Optional[int]
@@ -280,6 +282,7 @@ class ScriptedSim(mosaik_api_v3.Simulator):
                   req=copy.deepcopy(outputs))
         self._fault("get_data")
         yield from self._latency("get_data")
+        self._fault_late("get_data")
         data: Dict[str, Any] = {}
         for eid, attrs in outputs.items():
             for a in attrs:
@@ -375,6 +378,17 @@ class ScriptedSim(mosaik_api_v3.Simulator):
             return
         if f.get("at_request") != self.nreq_total():
             return
+        if f.get("late") and not self.remote:
+            self._late_fault = kind      # fails when the reply is due (after the injected latency), see _fault_late
+            return
+        self._raise_fault(f, kind)
+
+    def _fault_late(self, kind):
+        if getattr(self, "_late_fault", None) == kind:
+            self._late_fault = None
+            self._raise_fault(self.spec["fault"], kind)
+
+    def _raise_fault(self, f, kind):
         how = f.get("how")
         self._rec(op="fault", sid=self.sid, how=how, kind=kind)
         if how == "raise":
